@@ -22,14 +22,22 @@
      x-scale of the loss managers do not depend on the order in which a set of
      distinct in-bounds results is told (uses the structural invariant of
      Proofs/L1DStruct.v and a sharpened values invariant, Proofs/OrderL1DLoss.v).
+   * C11_l1d_losses_function_of_data (Proofs/L1DCanonical.v): for
+     _recompute_losses_factor = 1, scalar outputs without NaN, the loss table
+     is a FUNCTION OF THE DATA: any two legal histories -- any order of tells,
+     incremental or batched (either path of tell_many), any asks, pending
+     marks and discards in between -- that end with the same data have the
+     same neighbours, y-scale, loss table and (given the same missing end
+     points) the same loss(real=True).  This subsumes order independence and
+     batch = incremental for `losses`.
    What is missing (`_partial`): the table losses_combined (interpolated
    pieces), hence loss(real=False) and ask(); vector outputs for the loss
-   table; the batch path of tell_many beyond data/pending.  On the real class
+   table.  On the real class
    these are covered by the oracle of harness/avh/props/c11.py and the
    bit-exact correspondence only. *)
-From Coq Require Import Permutation ZArith QArith Qcanon.
+From Coq Require Import Permutation ZArith QArith Qcanon Lia.
 From AV Require Import Base.Prelude Model.AvgSpec Model.Seq Proofs.SeqProofs Proofs.OrderProofs.
-From AV Require Model.L1D Proofs.OrderL1D Proofs.OrderL1DLoss.
+From AV Require Model.L1D Proofs.OrderL1D Proofs.OrderL1DLoss Proofs.L1DOrder Proofs.L1DValues Proofs.L1DBatch Proofs.L1DBracket Proofs.L1DCanonical.
 Local Open Scope nat_scope.
 
 (* ---------------- SequenceLearner ---------------- *)
@@ -239,6 +247,70 @@ Proof.
            OrderL1DLoss.ScaleLaws_Z [0; 64; 40]%Z _ _ Hnd Hg HP)).
 Qed.
 
+
+Lemma L1DOrder_Z : L1DOrder.OrdLaws Z.ltb Z.eqb.
+Proof.
+  constructor.
+  - intros x y. apply Z.eqb_eq.
+  - intros x. apply Z.ltb_irrefl.
+  - intros x y z H1 H2. apply Z.ltb_lt in H1, H2. apply Z.ltb_lt. lia.
+  - intros x y H1 H2. apply Z.ltb_ge in H1, H2. lia.
+Qed.
+
+(* ---------------- Learner1D: the loss table is a function of the data ---------------- *)
+Theorem C11_l1d_losses_function_of_data :
+  forall (num : Type) (add sub mul div : num -> num -> num) (ltb eqb : num -> num -> bool)
+         (zero one inf neg_inf : num) (is_nan is_inf : num -> bool) (round12 : num -> num) (of_nat : nat -> num)
+         (L : list (option num) -> list (option (L1D.Y num)) -> num) (P : L1D.params num),
+  L1DOrder.OrdLaws ltb eqb -> (forall z, is_nan z = false) ->
+  L1DBracket.SubLaws sub ltb zero -> (forall x, mul (L1D.factor P) x = x) ->
+  let run := @L1D.run num add sub mul div ltb eqb zero one inf neg_inf is_nan is_inf round12 of_nat L P in
+  let init := @L1D.init num sub zero inf neg_inf P in
+  let clegal := @L1DCanonical.clegal num add sub mul div ltb eqb zero one inf neg_inf is_nan is_inf round12 of_nat L P in
+  let loss := @L1D.loss num sub div ltb eqb inf is_nan is_inf round12 P in
+  forall h1 h2, clegal init h1 = true -> clegal init h2 = true ->
+  L1D.data (run init h1) = L1D.data (run init h2) ->
+  L1D.nb (run init h1) = L1D.nb (run init h2) /\ L1D.sy (run init h1) = L1D.sy (run init h2) /\
+  L1D.los (run init h1) = L1D.los (run init h2) /\
+  (L1D.missing_bounds eqb P (run init h1) = L1D.missing_bounds eqb P (run init h2) ->
+   loss (run init h1) true = loss (run init h2) true).
+Proof.
+  intros num add sub mul div ltb eqb zero one inf neg_inf is_nan is_inf round12 of_nat L P OL NoNaN SL F1.
+  exact (@L1DCanonical.losses_function_of_data num add sub mul div ltb eqb zero one inf neg_inf is_nan is_inf round12 of_nat L P OL NoNaN SL F1).
+Qed.
+
+(* non-vacuity: an incremental history with pending marks, an ask and a discard,
+   and a batched one in another order, end with the same data; both are legal *)
+Definition fd_P : L1D.params Z := L1D.mkparams 0%Z 100%Z 0%Z 0 1%Z.
+Definition fd_h1 : list (L1D.op Z) :=
+  [L1D.Tell 0%Z (L1D.YS 5%Z); L1D.TellPending 30%Z; L1D.Tell 100%Z (L1D.YS 9%Z); L1D.Ask 2 true;
+   L1D.Tell 50%Z (L1D.YS 400%Z); L1D.RemoveUnfinished; L1D.Tell 25%Z (L1D.YS 1%Z); L1D.TellPending 70%Z].
+Definition fd_h2 : list (L1D.op Z) :=
+  [L1D.TellPending 0%Z; L1D.TellPending 100%Z;
+   L1D.TellMany [(25%Z, L1D.YS 1%Z); (100%Z, L1D.YS 9%Z); (0%Z, L1D.YS 5%Z); (50%Z, L1D.YS 400%Z)] true].
+Local Notation fd_run := (@L1D.run Z Z.add Z.sub Z.mul Z.div Z.ltb Z.eqb 0%Z 1%Z 1000000%Z (-1000000)%Z
+                        (fun _ => false) (fun _ => false) (fun x => x) Z.of_nat ex_L fd_P).
+Local Notation fd_init := (@L1D.init Z Z.sub 0%Z 1000000%Z (-1000000)%Z fd_P).
+Local Notation fd_clegal := (@L1DCanonical.clegal Z Z.add Z.sub Z.mul Z.div Z.ltb Z.eqb 0%Z 1%Z 1000000%Z (-1000000)%Z
+                        (fun _ => false) (fun _ => false) (fun x => x) Z.of_nat ex_L fd_P).
+Example C11_l1d_function_of_data_example :
+  fd_clegal fd_init fd_h1 = true /\ fd_clegal fd_init fd_h2 = true /\
+  L1D.data (fd_run fd_init fd_h1) = L1D.data (fd_run fd_init fd_h2) /\
+  L1D.pend (fd_run fd_init fd_h1) <> L1D.pend (fd_run fd_init fd_h2) /\
+  L1D.los (fd_run fd_init fd_h1) = L1D.los (fd_run fd_init fd_h2) /\
+  map snd (L1D.los (fd_run fd_init fd_h1)) <> [0; 0; 0]%Z.
+Proof.
+  assert (H1 : fd_clegal fd_init fd_h1 = true) by (vm_compute; reflexivity).
+  assert (H2 : fd_clegal fd_init fd_h2 = true) by (vm_compute; reflexivity).
+  assert (Hd : L1D.data (fd_run fd_init fd_h1) = L1D.data (fd_run fd_init fd_h2)) by (vm_compute; reflexivity).
+  pose proof (C11_l1d_losses_function_of_data Z Z.add Z.sub Z.mul Z.div Z.ltb Z.eqb 0%Z 1%Z 1000000%Z (-1000000)%Z
+             (fun _ => false) (fun _ => false) (fun x => x) Z.of_nat ex_L fd_P L1DOrder_Z (fun _ => eq_refl)
+             L1DBracket.SubLaws_Z (fun a => Z.mul_1_l a)) as T.
+  cbv zeta in T. specialize (T fd_h1 fd_h2 H1 H2 Hd). destruct T as [_ [_ [T3 _]]].
+  split; [exact H1|]. split; [exact H2|]. split; [exact Hd|]. split; [vm_compute; discriminate|]. split; [exact T3|].
+  vm_compute. discriminate.
+Qed.
+
 Print Assumptions C11_seq_order_irrelevant.
 Print Assumptions C11_avg_order_irrelevant.
 Print Assumptions C11_avg_order_irrelevant_Z.
@@ -250,3 +322,5 @@ Print Assumptions C11_l1d_batch_partial.
 Print Assumptions C11_l1d_partial_Qc.
 Print Assumptions C11_l1d_losses_order_irrelevant.
 Print Assumptions C11_l1d_losses_order_irrelevant_Qc.
+Print Assumptions C11_l1d_losses_function_of_data.
+Print Assumptions C11_l1d_function_of_data_example.
